@@ -18,13 +18,13 @@ import (
 )
 
 var specC06 = report.Spec{Property: "C06", Check: "C06",
-	Rule: "arbitrary vertex sequences inside the grid: 1-4 rings of 0-200 vertices (pool-based repetition, words over 2-6 pixel centres in general position from a walk/back-track/repeat/reverse/zig-zag grammar, uniform, valid) x grids (as C05) x 1-3 ids (1 in 12 cases also ids deeper than quadtree level 32) x all flags. " +
+	Rule: "arbitrary vertex sequences inside the grid: 1-4 rings of 0-200 vertices (thorough: 0-600) (pool-based repetition, words over 2-6 pixel centres in general position from a walk/back-track/repeat/reverse/zig-zag grammar, uniform, valid) x grids (as C05) x 1-3 ids (1 in 12 cases also ids deeper than quadtree level 32) x all flags. " +
 		"Oracle: the call returns (a panic is caught with its value and first texel frame) within the hang limit (10 s; typical < 1 ms; a case over the limit is re-run in a fresh process with a 60 s limit before it counts). " +
 		"Non-trivial: the routed ring of some tile matrix contains a step back (v[i] == v[i-2]) or a repeated centre. Distinct by case content.",
 	Assumptions: []string{"hang = no return within the limit, confirmed in a fresh process; a slow machine yields 'inconclusive', never a violation"}}
 
 func genC06(t *rapid.T) SnapCase {
-	c := drawArbCase(t, gen.AnyGridWide, 3, 200)
+	c := drawArbCase(t, gen.AnyGridWide, 3, report.Scale(200, 600))
 	c.Flags.Ignore = rapid.Bool().Draw(t, "ignoreOutside")
 	if c.Grid.Kind == "builtin" && rapid.IntRange(0, 11).Draw(t, "deepID") == 0 {
 		// known finding F10: ids whose pixel level exceeds 32
